@@ -167,8 +167,9 @@ def gen_desc(pr, n, tier):
         elif style == "dict":
             desc.insert(pos, ("CMEASURE", [q], None, {"0": small(), "1": small()}))
         elif style == "dict_nested":
-            inner = ("CMEASURE", [pr.randrange(n)], None, {"0": small(1), "1": small(1)})
-            desc.insert(pos, ("CMEASURE", [q], None, {"0": small(1) + [inner], "1": small(1) + [("MEASURE", [pr.randrange(n)], None, "")]}))
+            inner = ("CMEASURE", [pr.randrange(n)], None, {"0": small(2), "1": small(2)})
+            # nested measurement in the middle of the selected gate list: gates of the inner control must run before the trailing gates
+            desc.insert(pos, ("CMEASURE", [q], None, {"0": small(1) + [inner] + small(2), "1": small(1) + [("MEASURE", [pr.randrange(n)], None, "")] + small(2)}))
         else:
             desc.insert(pos, ("CMEASURE", [q], None, "ctrl"))
     if style == "function":
